@@ -5,9 +5,9 @@ D=$1; W=/tmp/wt/val
 cd $W || exit 2
 git checkout -q -- . ; git clean -fdq
 git -C $W checkout -q --detach $(git -C /repo rev-parse HEAD) 2>/dev/null
-PYTHONPATH=$W timeout 600 /venv/bin/python $D/demo.py >/tmp/val_clean.log 2>&1; c=$?
+cp $D/demo.py $W/demo.py; PYTHONPATH=$W timeout 600 /venv/bin/python $W/demo.py >/tmp/val_clean.log 2>&1; c=$?
 if ! git apply --check $D/patch.diff 2>/tmp/val_apply.log; then echo "$D: PATCH DOES NOT APPLY on HEAD: $(head -2 /tmp/val_apply.log)"; exit 1; fi
 git apply $D/patch.diff
-PYTHONPATH=$W timeout 600 /venv/bin/python $D/demo.py >/tmp/val_patched.log 2>&1; p=$?
+cp $D/demo.py $W/demo.py; PYTHONPATH=$W timeout 600 /venv/bin/python $W/demo.py >/tmp/val_patched.log 2>&1; p=$?
 git checkout -q -- . ; git clean -fdq
 echo "$D: demo clean=$c patched=$p"
